@@ -82,10 +82,13 @@ SampleTuples ==
   LET IdxS == {0, 1, 2^Depth - 1, 2^Depth, 2^Depth + 1, 2^(Depth + 1) - 1, 2^(Depth + 1), P - 1} \cap F
       ItS  == {0, 1, P - 1}
       PrS  == [1..Depth -> {0, 3}]
-  IN UNION {LET low == i % (2^Depth)  pre0 == Climb(0, low, pr)  post0 == Climb(it, low, pr)
-            IN {[idx |-> IF Kind = "insertion" THEN i ELSE <<i>>, pre |-> pre, post |-> post, items |-> <<it>>, proofs |-> <<pr>>] :
+  \* the data (path, roots) may be that of the leaf the index addresses, or of the leaf a too-wide / non-unique decomposition of the index
+  \* would address instead: idx + P has boolean digits too once more than log2(P) - 1 of them are asked for
+  IN UNION {LET low == (i + al * P) % (2^Depth)  pre0 == Climb(0, low, pr)  post0 == Climb(it, low, pr)
+            IN {[idx |-> IF Kind = "insertion" THEN i ELSE <<i>>, pre |-> pre, post |-> post, items |-> <<it>>, proofs |-> <<pr>>,
+                 cls |-> IF low = i % (2^Depth) THEN "own" ELSE "alias", consistent |-> (pre = pre0 /\ post = post0)] :
                   pre \in {pre0, post0, (pre0 + 1) % P}, post \in {pre0, post0, (post0 + 1) % P}}
-            : i \in IdxS, it \in ItS, pr \in PrS}
+            : i \in IdxS, it \in ItS, pr \in PrS, al \in {0, 1}}
 Init == t \in (IF Sample THEN SampleTuples ELSE Tuples) /\ done = FALSE
 Next == ~done /\ done' = TRUE /\ UNCHANGED t
 Spec == Init /\ [][Next]_vars
